@@ -295,10 +295,13 @@ example : runModule pyIntOfStr conversions "convertToIntRange"
     [.py (.tokens []), ofOptInt (some 0), ofOptInt none, ofInv (.val (.int 7)), ofEmp (.val (.int 0))]
     = .error .typeError := by
   rfl
+-- (a failing `decide +kernel` explains itself with the elaborator's evaluator, which is very slow here: the small budget
+-- makes a broken example fail at once; the kernel check of a correct one does not consume it)
+set_option maxHeartbeats 2000 in
 example : runModule pyIntOfStr conversions "convertToIntRangeCapped"
     [.py (.str "70000".toList), ofOptInt (some 1), ofOptInt (some 1000), ofInv (.val (.int 1)), ofEmp .invalid]
     = .ok (.py (.int 1000)) := by
-  rfl
+  decide +kernel
 
 /-! ## constants.py: the `_special_value_*` helpers (the dump `Gen.Code.constants`, run after conversions.py)
 
@@ -456,10 +459,10 @@ example : runModule pyIntOfStr constants_scope "_special_value_maxLength" [.elem
 theorem escapeQuotes_code_eq_model (parseInt : Str → Except PyErr Int) (s : Str) :
     runModule parseInt utils "escapeQuotes" [.py (.str s)] = .ok (.py (.str (Fmt.escapeQuotes s))) := by
   have h : runModule parseInt utils "escapeQuotes" [.py (.str s)]
-      = run ⟨parseInt, callIn parseInt []⟩ escapeQuotes_ast [.py (.str s)] := rfl
+      = run { parseInt := parseInt, funs := callIn parseInt [] } escapeQuotes_ast [.py (.str s)] := rfl
   rw [h]
   simp [run, runKw, escapeQuotes_ast, bindArgs, execL, execS, eval, evalList, List.lookup, callMethod, Lit.toPy,
-    replaceAll_quote, fmt_escapeQuotes]
+    replaceAll_quote, fmt_escapeQuotes, resultOf]
 
 /-- The five hand-written copies of `escapeQuotes` (formatter, DOM view, tree serialiser, pickle, attribute stores)
 are the same function, so the theorem above ties all of them to the code. -/
@@ -472,11 +475,11 @@ theorem escapeQuotes_models_agree (s : Str) :
 theorem escapeQuotes_code_nontext (parseInt : Str → Except PyErr Int) (v : PyV) (hv : ∀ s, v ≠ .str s) :
     runModule parseInt utils "escapeQuotes" [.py v] = .error (.other "AttributeError") := by
   have h : runModule parseInt utils "escapeQuotes" [.py v]
-      = run ⟨parseInt, callIn parseInt []⟩ escapeQuotes_ast [.py v] := rfl
+      = run { parseInt := parseInt, funs := callIn parseInt [] } escapeQuotes_ast [.py v] := rfl
   rw [h]
   cases v <;> first
     | exact absurd rfl (hv _)
-    | simp [run, runKw, escapeQuotes_ast, bindArgs, execL, execS, eval, evalList, List.lookup, callMethod, Lit.toPy]
+    | simp [run, runKw, escapeQuotes_ast, bindArgs, execL, execS, eval, evalList, List.lookup, callMethod, Lit.toPy, resultOf]
 
 /-- `unescapeQuotes(s)` on a text: every `&quot;`, left to right, becomes `"` (no hand model uses it; the library does
 not call it either). -/
@@ -484,9 +487,9 @@ theorem unescapeQuotes_code (parseInt : Str → Except PyErr Int) (s : Str) :
     runModule parseInt utils "unescapeQuotes" [.py (.str s)]
       = .ok (.py (.str (replaceAll "&quot;".toList ['"'] s))) := by
   have h : runModule parseInt utils "unescapeQuotes" [.py (.str s)]
-      = run ⟨parseInt, callIn parseInt [escapeQuotes_ast]⟩ unescapeQuotes_ast [.py (.str s)] := rfl
+      = run { parseInt := parseInt, funs := callIn parseInt [escapeQuotes_ast] } unescapeQuotes_ast [.py (.str s)] := rfl
   rw [h]
-  simp [run, runKw, unescapeQuotes_ast, bindArgs, execL, execS, eval, evalList, List.lookup, callMethod, Lit.toPy]
+  simp [run, runKw, unescapeQuotes_ast, bindArgs, execL, execS, eval, evalList, List.lookup, callMethod, Lit.toPy, resultOf]
 
 example : runModule pyIntOfStr utils "escapeQuotes" [.py (.str "a\"b".toList)] = .ok (.py (.str "a&quot;b".toList)) := by
   rfl
